@@ -3,6 +3,11 @@ NOTES = ("All checks: ./check Cxx --tier quick|thorough (cwd /verif). Known find
          "Trusted base and per-property limits: DESIGN.md §8 and §5.")
 NOT_APPLICABLE = {}
 CHECKS = {
+ "C01": {
+  "technique": "Coq proof over reals (exp monotonicity, max-fold) about an executable model of confidence_maps.py + model/code correspondence",
+  "text": "Theorems for all keypoints, sizes, strides, sigma>0: every cell of generate_confmaps equals exp(-d^2/2(sigma*stride)^2) at image position (j*stride,i*stride); values in [0,1]; antitone in distance, =1 iff on the keypoint; multi-instance/centroid cells are the maximum over animals; missing keypoints contribute nothing (all-missing => 0); grid length ceil(n/stride). The model (cells hold the exact rational argument of exp) is tied to generate_confmaps/generate_multiconfmaps/both DataPipes by per-run differential execution within float32 tolerance, and the property statement is evaluated independently on the implementation's outputs.",
+  "note": "Trusted: Coq kernel, harness, float32 kernels of torch (exp, nan_to_num, maximum, arange) modelled not verified. Axioms: the four Reals axioms of the standard library (sig_forall_dec, sig_not_dec, functional_extensionality_dep, classic).",
+ },
  "C17": {
   "technique": "Coq proof (BFS invariant, induction) over an executable model of toposort_edges + exhaustive model/code correspondence",
   "text": "Theorem for every arborescence edge list of any size: the modelled toposort returns a permutation of all edge indices with each edge after the edge into its source. The model is tied to toposort_edges by exhaustive differential execution over all rooted labelled trees on 2..5 (quick) / 2..6 (thorough) nodes under all edge listings, plus sampled 7-node trees and non-tree digraphs.",
